@@ -1,0 +1,10 @@
+//go:build verif
+
+// Contracts checked by /verif (gocv). Comment-only; compiled only with -tags verif.
+
+package unary
+
+//@ func NewUnaryNegation
+//@   requires stepsBatch >= 0
+//@   ensures[C08] never-fails: result1 == nil && result0 != nil
+//@   ensures[C06] wraps-next: istype(result0, *unary.unaryNegation) && cast(result0, *unary.unaryNegation).next == next
